@@ -5,6 +5,7 @@ import (
 	"os"
 )
 
+// dbgf prints development traces when YDBG is set (never in registered commands).
 func dbgf(format string, args ...interface{}) {
 	if os.Getenv("YDBG") != "" {
 		fmt.Printf("DBG "+format+"\n", args...)
